@@ -113,7 +113,7 @@ VF = {
 def when_expr(w):
     n = w["n"]
     return {"pos": "$(typeof inputs.%s === 'number' && inputs.%s > 1)" % (n, n),
-            "nn": "$(inputs.%s !== null)" % n,
+            "nn": "$(inputs.%s != null)" % n,      # loose: an absent optional input is `undefined` in cwltool
             "no": "$(false)",
             "bad": "$(1)"}[w["k"]]
 
